@@ -146,6 +146,16 @@ MAX_ABNORMAL = 8
 JOB_LINES = 4000          # at most this many cases per driver process
 
 
+def _big_stack():
+    import resource
+    try:
+        soft, hard = resource.getrlimit(resource.RLIMIT_STACK)
+        want = 4 * 1024 * 1024 * 1024
+        resource.setrlimit(resource.RLIMIT_STACK, (want if hard == resource.RLIM_INFINITY or hard >= want else hard, hard))
+    except (ValueError, OSError):
+        pass
+
+
 def _run_shard(binary, lines, timeout, hang_token="HANG"):
     """Runs one driver process over `lines`. impldrv has a per-case watchdog (prints HANG and exits); a driver that dies
     in the middle of a case yields CRASH for that case; a process that exceeds `timeout` seconds yields `hang_token` for the
@@ -157,7 +167,10 @@ def _run_shard(binary, lines, timeout, hang_token="HANG"):
             out.extend(["NOTRUN"] * (len(lines) - i))
             return out
         chunk = lines[i:]
-        p = subprocess.Popen([binary], stdin=subprocess.PIPE, stdout=subprocess.PIPE, stderr=subprocess.DEVNULL, env=ENV)
+        # the extracted model is not tail-recursive over byte lists: give it the stack a megabyte-sized message needs
+        # (the implementation driver keeps the default; its worker thread has its own, deliberately ordinary, stack)
+        pre = _big_stack if binary == MODELDRV else None
+        p = subprocess.Popen([binary], stdin=subprocess.PIPE, stdout=subprocess.PIPE, stderr=subprocess.DEVNULL, env=ENV, preexec_fn=pre)
         data = ("\n".join(chunk) + "\n").encode()
         timed_out = False
         try:
